@@ -41,6 +41,14 @@ class InlineBlock(ast.stmt):
     _attributes = ("lineno", "col_offset", "end_lineno", "end_col_offset")
 
 
+def _unparse_inline_block(self, node):
+    # an inlined call prints as the statements it stands for
+    self.traverse(node.body)
+
+
+ast._Unparser.visit_InlineBlock = _unparse_inline_block
+
+
 class Inliner:
     def __init__(self, world, modname, cls=None, primitives=(), max_depth=3,
                  max_stmts=80):
@@ -220,6 +228,18 @@ class Inliner:
                 body[0].value, ast.Constant) and isinstance(
                     body[0].value.value, str):
             body = body[1:]
+        # simple local aliases before the return are substituted
+        env = {}
+        while len(body) > 1 and isinstance(body[0], ast.Assign) and len(
+                body[0].targets) == 1 and isinstance(
+                    body[0].targets[0], ast.Name):
+            v0 = body[0].value
+            if any(isinstance(n, (ast.Call, ast.Yield, ast.YieldFrom,
+                                  ast.Await, ast.Lambda))
+                   for n in ast.walk(v0)):
+                return None
+            env[body[0].targets[0].id] = v0
+            body = body[1:]
         if len(body) == 1 and isinstance(body[0], ast.Return) and \
                 body[0].value is not None:
             v = body[0].value
@@ -227,6 +247,15 @@ class Inliner:
                 if isinstance(n, (ast.Yield, ast.YieldFrom, ast.Await,
                                   ast.Lambda, ast.NamedExpr)):
                     return None
+            if env:
+                class S(ast.NodeTransformer):
+                    def visit_Name(self, x):
+                        if x.id in env and isinstance(x.ctx, ast.Load):
+                            return acopy(env[x.id])
+                        return x
+                v = acopy(v)
+                for _ in range(len(env)):
+                    v = S().visit(v)
             return v
         return None
 
